@@ -304,6 +304,88 @@ func validatorsAreCreator(e *hg.Event) bool {
 	return true
 }
 
+// ---- field-level content oracle: which string of which field changed (with both values) ----
+
+func peerDiff(where string, a, b *peers.Peer) string {
+	switch {
+	case a.PubKeyHex != b.PubKeyHex:
+		return fmt.Sprintf("PubKeyHex %s before=%q after=%q", where, a.PubKeyHex, b.PubKeyHex)
+	case a.NetAddr != b.NetAddr:
+		return fmt.Sprintf("NetAddr %s before=%q after=%q", where, a.NetAddr, b.NetAddr)
+	case a.Moniker != b.Moniker:
+		return fmt.Sprintf("Moniker %s before=%q after=%q", where, a.Moniker, b.Moniker)
+	}
+	return ""
+}
+
+func itxsDiff(where string, a, b []hg.InternalTransaction) string {
+	if len(a) != len(b) {
+		return fmt.Sprintf("InternalTransactions %s len before=%d after=%d", where, len(a), len(b))
+	}
+	for i := range a {
+		if d := peerDiff(fmt.Sprintf("%s.InternalTransactions[%d].Body.Peer", where, i), &a[i].Body.Peer, &b[i].Body.Peer); d != "" {
+			return d
+		}
+		if a[i].Signature != b[i].Signature {
+			return fmt.Sprintf("Signature %s.InternalTransactions[%d] before=%q after=%q", where, i, a[i].Signature, b[i].Signature)
+		}
+	}
+	return ""
+}
+
+func peerListDiff(where string, a, b []*peers.Peer) string {
+	if len(a) != len(b) || (a == nil) != (b == nil) {
+		return fmt.Sprintf("Peers %s len before=%d after=%d", where, len(a), len(b))
+	}
+	for i := range a {
+		if (a[i] == nil) != (b[i] == nil) {
+			return fmt.Sprintf("Peers %s[%d] nil-ness", where, i)
+		}
+		if a[i] != nil {
+			if d := peerDiff(fmt.Sprintf("%s[%d]", where, i), a[i], b[i]); d != "" {
+				return d
+			}
+		}
+	}
+	return ""
+}
+
+func keySetDiff(where string, a, b []string) string {
+	sort.Strings(a)
+	sort.Strings(b)
+	if len(a) != len(b) {
+		return fmt.Sprintf("MapKey %s len before=%d after=%d", where, len(a), len(b))
+	}
+	for i := range a {
+		if a[i] != b[i] {
+			return fmt.Sprintf("MapKey %s before=%q after=%q", where, a[i], b[i])
+		}
+	}
+	return ""
+}
+
+func eventDiff(a, b *hg.Event) string {
+	if d := itxsDiff("Event.Body", a.Body.InternalTransactions, b.Body.InternalTransactions); d != "" {
+		return d
+	}
+	if a.Signature != b.Signature {
+		return fmt.Sprintf("Signature Event before=%q after=%q", a.Signature, b.Signature)
+	}
+	if !reflect.DeepEqual(a.Body.Parents, b.Body.Parents) {
+		return fmt.Sprintf("Parents Event before=%q after=%q", a.Body.Parents, b.Body.Parents)
+	}
+	return ""
+}
+
+// contentChanged reports `V C15 content-changed:<Field> <path> <where> before=.. after=..`
+func contentChanged(path, tag, d string) {
+	if d == "" {
+		return
+	}
+	field := strings.SplitN(d, " ", 2)
+	violation("content-changed:"+field[0], path+" "+tag+" "+field[1])
+}
+
 func payloadSame(a, b *hg.Event) bool {
 	return reflect.DeepEqual(a.Body.Transactions, b.Body.Transactions) &&
 		reflect.DeepEqual(a.Body.InternalTransactions, b.Body.InternalTransactions) &&
@@ -514,6 +596,7 @@ func (s *scen) readCase(path string, h *hg.Hashgraph, orig *hg.Event, we hg.Wire
 		if ver != verBefore {
 			violation("signature-invalid-after-wire-"+path, tag)
 		}
+		contentChanged("wire-"+path, tag, eventDiff(orig, ev))
 		if !payloadSame(orig, ev) || ev.Signature != orig.Signature {
 			violation("payload-changed", "wire-"+path+" "+tag)
 		}
@@ -556,6 +639,7 @@ func (s *scen) dbCase(path string, ev *hg.Event, get func() (*hg.Event, error), 
 		if ver != verBefore {
 			violation("signature-invalid-after-"+path, tag)
 		}
+		contentChanged(path, tag, eventDiff(ev, got))
 		if !payloadSame(ev, got) {
 			violation("payload-changed", path+" "+tag)
 		}
@@ -780,6 +864,7 @@ func (s *scen) finish() {
 		if !safeVerify(got) {
 			violation("signature-invalid-after-badger", "GetEvent after reopen")
 		}
+		contentChanged("badger-reopen", "GetEvent", eventDiff(e, got))
 		if !payloadSame(e, got) {
 			violation("payload-changed", "badger GetEvent after reopen")
 		}
@@ -833,6 +918,7 @@ func (w *world) itxCases(l *links, n int) {
 				if ver != verBefore {
 					violation("signature-invalid-after-itx-"+path, strShapeNames[shape])
 				}
+				contentChanged("itx-"+path, strShapeNames[shape], peerDiff("InternalTransaction.Body.Peer", &it.Body.Peer, &got.Body.Peer))
 			} else {
 				w.stats["out-of-domain:itx-"+path]++
 			}
@@ -870,6 +956,10 @@ func main() {
 	lg.Level = logrus.PanicLevel
 	quiet = logrus.NewEntry(lg)
 
+	if only != "" {
+		// child process: it reports on os.Stdout directly; case lines and atom definitions are dropped
+		out = bufio.NewWriter(io.Discard)
+	}
 	w := newWorld(seed)
 	if only == "join:ff" {
 		w.ffRun()
@@ -880,7 +970,6 @@ func main() {
 		return
 	}
 	if only != "" {
-		out = bufio.NewWriter(io.Discard)
 		w.childCase(only)
 		return
 	}
